@@ -88,6 +88,9 @@ class StrengthModel:
             np.savez(filename, ssStrength=self.solidStrength, rss = self.rss, ls = self.ls)
 
     def load(self, filename):
+        #np.savez adds the extension when saving
+        if not filename.endswith('.npz'):
+            filename += '.npz'
         data = np.load(filename)
         self.solidStrength = data['ssStrength']
         self.rss = data['rss']
